@@ -708,6 +708,45 @@ func (c *EvalCtx) evalCall(e *CallE) TV {
 			evalFail("payload: unknown type %s", ExprString(e.Args[1]))
 		}
 		return TV{V: c.eng.ifacePayload(x.V.(*Term), t), T: t}
+	case "closureIs", "closureVar":
+		// closureIs(f, "name"): the function value f is the function (literal) called name, e.g.
+		// "beginArrayUint8$1"; closureVar(f, "x"): the value f's function literal captured for its
+		// free variable x. Both need f to be a function value whose identity is known here.
+		x := c.eval(e.Args[0])
+		sl, ok := e.Args[1].(*StrLit)
+		if !ok {
+			evalFail("%s: second argument must be a string literal", name)
+		}
+		var fv *FuncV
+		switch v := x.V.(type) {
+		case *FuncV:
+			fv = v
+		case *Term:
+			fv = closureOf(v)
+		}
+		if name == "closureIs" {
+			if fv == nil {
+				return TV{V: False, T: types.Typ[types.Bool]}
+			}
+			fn := fv.Fn.Name()
+			return TV{V: Bool(fn == sl.Val || strings.HasSuffix(fn, "."+sl.Val)), T: types.Typ[types.Bool]}
+		}
+		if fv == nil {
+			evalFail("closureVar: the identity of the function value %s is not known", ExprString(e.Args[0]))
+		}
+		for i, v := range fv.Fn.FreeVars {
+			if v.Name() == sl.Val && i < len(fv.Bind) {
+				// variables are captured by reference: read the captured cell in the current state
+				if pv, isPtr := fv.Bind[i].(*PtrV); isPtr && pv.Kind == PCell {
+					if pt, isP := v.Type().Underlying().(*types.Pointer); isP {
+						return TV{V: c.cur.Cells[pv.Cell], T: pt.Elem()}
+					}
+				}
+				return TV{V: fv.Bind[i], T: v.Type()}
+			}
+		}
+		evalFail("closureVar: %s has no free variable %s", fv.Fn.Name(), sl.Val)
+		return TV{}
 	case "val":
 		// val(p): the struct/array value stored at pointer p
 		x := c.eval(e.Args[0])
@@ -997,7 +1036,12 @@ func convertNum(t *Term, from, to types.Type, assume func(*Term)) *Term {
 func (c *EvalCtx) evalBinary(e *Binary) TV {
 	switch e.Op {
 	case "&&":
-		return TV{V: And(c.boolOf(c.eval(e.X), e.X), c.boolOf(c.eval(e.Y), e.Y)), T: types.Typ[types.Bool]}
+		// a left operand that is literally false guards the right one (which may not be evaluable)
+		lhs := c.boolOf(c.eval(e.X), e.X)
+		if lhs == False {
+			return TV{V: False, T: types.Typ[types.Bool]}
+		}
+		return TV{V: And(lhs, c.boolOf(c.eval(e.Y), e.Y)), T: types.Typ[types.Bool]}
 	case "||":
 		return TV{V: Or(c.boolOf(c.eval(e.X), e.X), c.boolOf(c.eval(e.Y), e.Y)), T: types.Typ[types.Bool]}
 	case "==>":
